@@ -43,6 +43,8 @@ def persisted_before_commit(ctx, rule, fn_name, persist_fn, commit_fn, what, arg
         g = b.site_gates(c)
         gating = [p for p in persists if id(p) in g]
         same = [p for p in gating if b.recv_local(p) is not None and b.recv_local(p) == b.recv_local(c)]
+        if same:
+            ctx.sample(f"{rec['file']}:{c.get('line')} {nice(fn_name)} :: {nice(commit_fn)} gated by {nice(persist_fn)} (line {same[0].get('line')}) on the same receiver")
         ctx.check(bool(same), rule, fn_name, f"{what}-before-storage-commit",
                   f"{nice(commit_fn)} runs only after {nice(persist_fn)} returned Ok on the same transaction object",
                   f"{nice(commit_fn)} (line {c.get('line')}) is not gated by a successful {nice(persist_fn)} on the same transaction object "
@@ -85,6 +87,8 @@ def startup_seed(ctx, rule):
         arg = n["args"][2] if len(n.get("args", [])) >= 3 else None
         toks = b.flow_tokens(arg) if arg is not None else set()
         flows = any(t == "call:" + BE_GET_TS for t in toks)
+        if pre and flows:
+            ctx.sample(f"{rec['file']}:{n.get('line')} QueryServer::new :: new_lamport max <- get_db_ts_max (line {pre[0].get('line')})")
         ctx.check(bool(pre) and flows, rule, QS_NEW, "first-cid-seeded-from-persisted-ts-max",
                   "Cid::new_lamport(.., .., max) with max read by get_db_ts_max earlier in QueryServer::new",
                   f"Cid::new_lamport at line {n.get('line')}: its `max` argument {'does not flow from get_db_ts_max' if not flows else 'is computed'}"
